@@ -12,7 +12,7 @@ generate_facts = extract_facts.generate
 
 ID = "C18"
 LEAN_MODULES = ["Econf.Props.C18", "Econf.Props.Struct"]
-THEOREMS = ["Econf.Struct.C18_globals"]
+THEOREMS = ["Econf.C18_noninterference", "Econf.C18_frame_keeps_file", "Econf.C18_frame_indep_file", "Econf.C18_frame_indep_history", "Econf.C18_model_noninterference", "Econf.Struct.C18_globals"]
 SHRINK = False
 RULE = ("groups of 2..16 threads in one process (ThreadSanitizer build of the harness), each running its own call sequence (read single "
         "files and two-directory trees, query, set, merge, write, re-read, free) on private objects and private directories; every "
